@@ -38,6 +38,7 @@ var fixtures = map[string]string{
 	"cfg_bad_yaml.yml":        "generator: [\n",
 	"cfg_unknown_field.yml":   "nope: 1\n",
 	"cfg_unknown_feature.yml": "generator:\n  features:\n    enable: [\"nope\"]\n",
+	"cfg_expand.yml":          "expand: tgt/openapi_expanded_gen.yml\n",
 	"cfg_ok.yml":              "generator:\n  features:\n    disable_all: true\n    enable: [\"paths/client\"]\n",
 }
 
@@ -50,6 +51,12 @@ type stage struct {
 var stages = []stage{
 	{"unknown flag", []string{"--nope", "ok.yml"}, "flag provided but not defined"},
 	{"missing spec argument", nil, "Usage: ogen"},
+	{"package name with a hyphen", []string{"--package", "bad-name", "ok.yml"}, "package name"},
+	{"package name is a keyword", []string{"--package", "func", "ok.yml"}, "package name"},
+	{"package name starts with a digit", []string{"--package", "1api", "ok.yml"}, "package name"},
+	{"package name is a path", []string{"--package", "a/b", "ok.yml"}, "package name"},
+	{"IR build error, expanded spec asked into the target", []string{"--config", "cfg_expand.yml", "ir_err.yml"}, "default value is string"},
+	{"route conflict, expanded spec asked into the target", []string{"--config", "cfg_expand.yml", "route_conflict.yml"}, "two parameters in a row"},
 	{"config file missing", []string{"--config", "missing.yml", "ok.yml"}, "load config"},
 	{"config is invalid YAML", []string{"--config", "cfg_bad_yaml.yml", "ok.yml"}, "load config"},
 	{"config has unknown field", []string{"--config", "cfg_unknown_field.yml", "ok.yml"}, "not found in type"},
